@@ -147,40 +147,47 @@ func c20ReadFixture(t testing.TB, name string) []byte {
 	return b
 }
 
-// c20RefcheckLegacy: regenerate the committed fixtures the way gen_testdata.go does (SHAKE128 stream); when the
-// implementation still reproduces testdata/ciphertext, the converter must turn it into testdata/ciphertext_v137.
+// c20RefcheckLegacy binds the converter to the committed fixtures. gen_testdata.go draws Setup and then Encrypt from one
+// SHAKE128 stream, so the 72-byte MAC seed of testdata/ciphertext is what follows Setup in that stream; it is recognised
+// by H("id computation hash"||seed) == id of the fixture. With that seed the converter must turn the committed
+// testdata/ciphertext into the committed testdata/ciphertext_v137 byte for byte. (Independent of how the tree under
+// test encrypts; only Setup's consumption of the stream is relied on, and checked through the id.)
 func c20RefcheckLegacy(t *testing.T, r *verifmc.Run) {
 	prng := sha3.NewShake128()
 	pk, _, err := Setup(prng)
 	if err != nil {
 		t.Fatalf("Setup: %v", err)
 	}
-	var pol Policy
-	if err := pol.FromString("EU: true"); err != nil {
-		t.Fatalf("FromString: %v", err)
-	}
 	seed := make([]byte, c20SeedSize)
 	prng.Clone().Read(seed)
-	var ct []byte
-	if pn, w := verifmc.Try(func() { ct, err = pk.Encrypt(prng, pol, []byte(c20FixtureMsg)) }); pn || err != nil {
-		r.Set("legacy_converter_bound_to_fixture", fmt.Sprintf("no: Encrypt failed (%v %s)", err, w))
-		return
-	}
-	if !bytes.Equal(ct, c20ReadFixture(t, "ciphertext")) {
-		// the implementation under test no longer reproduces its own golden file; nothing to bind against
-		r.Set("legacy_converter_bound_to_fixture", "no: testdata/ciphertext is not reproduced by this tree")
-		return
-	}
-	leg, err := c20ToLegacy(ct, seed)
+	fix := c20ReadFixture(t, "ciphertext")
+	fr, err := c20ParseNew(fix)
 	if err != nil {
-		t.Fatalf("legacy converter fails on the regenerated fixture: %v", err)
+		t.Fatalf("testdata/ciphertext does not have the v1.3.8 framing: %v", err)
+	}
+	if pkb, _ := pk.MarshalBinary(); !bytes.Equal(pkb, c20ReadFixture(t, "publicKey")) || !bytes.Equal(fr.id, c20SeedHash("id computation hash", seed)) {
+		// this tree's Setup no longer reproduces the golden key pair, so the fixture's seed cannot be located
+		r.Set("legacy_converter_bound_to_fixture", "no: Setup from the SHAKE128 stream does not reproduce testdata/publicKey, the fixture's seed is unknown")
+		return
+	}
+	leg, err := c20ToLegacy(fix, seed)
+	if err != nil {
+		t.Fatalf("legacy converter fails on testdata/ciphertext: %v", err)
 	}
 	if !bytes.Equal(leg, c20ReadFixture(t, "ciphertext_v137")) {
-		t.Fatalf("legacy converter does not reproduce testdata/ciphertext_v137 (got %d bytes)", len(leg))
+		t.Fatalf("legacy converter does not turn testdata/ciphertext into testdata/ciphertext_v137 (got %d bytes)", len(leg))
 	}
-	r.Set("legacy_converter_bound_to_fixture", "yes: testdata/ciphertext regenerated byte for byte and converted to testdata/ciphertext_v137 byte for byte")
+	r.Set("legacy_converter_bound_to_fixture", "yes: committed testdata/ciphertext (seed located in the generator's SHAKE128 stream, confirmed by the id) converts to the committed testdata/ciphertext_v137 byte for byte")
 	r.Count("legacy_converter_fixture_match", 1)
 	r.Eval(1)
+	// informational: does this tree still regenerate its golden ciphertext?
+	var pol Policy
+	if err := pol.FromString("EU: true"); err == nil {
+		var ct []byte
+		if pn, _ := verifmc.Try(func() { ct, err = pk.Encrypt(prng, pol, []byte(c20FixtureMsg)) }); !pn && err == nil {
+			r.Set("golden_ciphertext_regenerated_by_this_tree", bytes.Equal(ct, fix))
+		}
+	}
 }
 
 // ---- system fixture ---------------------------------------------------------------------------
@@ -410,6 +417,15 @@ func c20RunGroup(r *verifmc.Run, sys *c20Sys, g *c20Group, gi int, keys []*c20Ke
 			viol("Policy.ExtractFromCiphertext", "fails/"+c.name, fmt.Sprintf("ExtractFromCiphertext(%s ciphertext of %q): %v %s", c.name, rep.s0, exErr, w), nil)
 		} else {
 			r.Eval(1)
+			// the extracted policy must itself survive print / parse
+			var q Policy
+			var qerr error
+			var str string
+			if pn, w := verifmc.Try(func() { str = ex.String(); qerr = q.FromString(str) }); pn || qerr != nil {
+				viol("Policy.ExtractFromCiphertext", "extracted-policy-does-not-reparse/"+c.name, fmt.Sprintf("policy extracted from the %s ciphertext of %q prints %q, which FromString refuses: %v %s", c.name, rep.s0, str, qerr, w), nil)
+			} else if !q.Equal(&ex) || !ex.Equal(&q) {
+				viol("Policy.ExtractFromCiphertext", "extracted-policy-print-parse-not-equal/"+c.name, fmt.Sprintf("policy extracted from the %s ciphertext of %q prints %q, whose parse is not Equal to it", c.name, rep.s0, str), nil)
+			}
 			if !ex.Equal(g.pol) || !g.pol.Equal(&ex) {
 				viol("Policy.ExtractFromCiphertext", "not-equal-to-encryption-policy/"+c.name, fmt.Sprintf("policy extracted from the %s ciphertext of %q prints %q and is not Equal to the encryption policy", c.name, rep.s0, ex.String()), nil)
 			}
